@@ -1681,6 +1681,7 @@ func unitsCmd(a Args) {
 	for len(pool) < cfg.pool {
 		pool = append(pool, g.genWF(g.p(0.35)))
 	}
+	unitsLateMultipliers(s)
 	if all || want["roundtrip"] {
 		unitsStreamRoundtrip(s, g, cfg)
 	}
@@ -2152,6 +2153,64 @@ func unitsStreamNonWF(s *unitsSink, g *unitsGen, cfg unitsCfg) {
 				}
 			}
 			s.parseCase(u, x.render(), "nonwf:grammar:"+kind)
+		}
+	}
+}
+
+// unitsLateMultipliers: a definition whose multiplier table (the map Multipliers() hands out) is
+// extended AFTER its first use. Whatever the lazily built parser state then knows, a string is parsed
+// into the sum it stands for under the final table, or rejected - never into another number
+// ("parsing never returns a wrong number"). Three histories: formatted first, parsed first, extended
+// before any use (control: everything is accepted and correct).
+func unitsLateMultipliers(s *unitsSink) {
+	type step struct{ name string }
+	texts := []struct {
+		s    string
+		want int64
+	}{
+		{"1H", 3600}, {"1H1m1s", 3661}, {"1d 1H 1m 1s", 90061}, {"2m", 120}, {"2m3s", 123}, {"59", 59}, {"1d", 86400}, {"3days 5", 259205},
+		{"1 hour 1 minute", 3660}, {"2H30m", 9000},
+	}
+	for _, history := range []string{"formatted-then-extended", "parsed-then-extended", "extended-then-used"} {
+		u := schema.NewUnits(schema.NewUnit("s", "s", "second", "seconds"), map[int64]*schema.UnitDefinition{
+			60: schema.NewUnit("m", "m", "minute", "minutes")})
+		switch history {
+		case "formatted-then-extended":
+			_ = u.FormatShortInt(61)
+		case "parsed-then-extended":
+			_, _ = u.ParseInt("1m1s")
+		}
+		u.Multipliers()[3600] = schema.NewUnit("H", "H", "hour", "hours")
+		u.Multipliers()[86400] = schema.NewUnit("d", "d", "day", "days")
+		for _, tc := range texts {
+			s.stats["late_multipliers"]++
+			res := unitsGuard(func() unitsRes {
+				n, err := u.ParseInt(tc.s)
+				if err != nil {
+					return unitsRes{R: "err", Msg: err.Error()}
+				}
+				return unitsRes{R: "ok", I: n}
+			})
+			switch {
+			case res.R == "panic":
+				s.finding("ParseInt panicked on a definition extended after its first use", nil, nil, tc.s, history, res.Msg)
+			case res.R == "ok" && res.I != tc.want:
+				s.finding("ParseInt returns a wrong number on a definition whose multiplier table was extended after its first use", nil, nil, tc.s,
+					history, fmt.Sprintf("the string stands for %d, got %d without an error", tc.want, res.I))
+			case res.R == "err" && history == "extended-then-used":
+				s.finding("a well-formed string is rejected by a definition completed before its first use", nil, nil, tc.s, history, res.Msg)
+			}
+			fres := unitsGuard(func() unitsRes {
+				f, err := u.ParseFloat(tc.s)
+				if err != nil {
+					return unitsRes{R: "err", Msg: err.Error()}
+				}
+				return unitsRes{R: "ok", F: f}
+			})
+			if fres.R == "ok" && fres.F != float64(tc.want) {
+				s.finding("ParseFloat returns a wrong number on a definition whose multiplier table was extended after its first use", nil, nil, tc.s,
+					history, fmt.Sprintf("the string stands for %d, got %v without an error", tc.want, fres.F))
+			}
 		}
 	}
 }
